@@ -240,6 +240,19 @@ func NewJWorld(c *simrt.Chooser, workspace bool, flags ...string) *JWorld {
 	return w
 }
 
+// OpenWithDisk marks doc open with exactly the text of its file (no new version).
+func (w *JWorld) OpenWithDisk(doc *JDoc) J {
+	w.openCount++
+	doc.OpenOrder = w.openCount
+	doc.Open = true
+	doc.LSPVer++
+	doc.Marker = doc.DiskMark
+	doc.History = []int{doc.Marker}
+	doc.Text, doc.Lines = doc.Versions[doc.DiskMark], doc.DiskLines
+	doc.Includes = append([]string(nil), doc.DiskIncludes...)
+	return J{"textDocument": J{"uri": doc.URI, "languageId": "hledger", "version": doc.LSPVer, "text": doc.Text}}
+}
+
 // OpenDocs lists open documents in open order.
 func (w *JWorld) OpenDocs() []*JDoc {
 	var out []*JDoc
